@@ -394,3 +394,74 @@ def record_observation(ocfg: dict, variant: int = 0, scheduler: str | None = Non
     if before != after:
         meta["user_diff"] = [k for k in before if before[k] != after[k]]
     return {"ocfg": ocfg, "observed": observed, "events": events, "meta": meta}
+
+
+# ---------------------------------------------------------------------------
+# seeded stochastic pipelines under the schedulers (C07 / C04: PyxelSeedThreads on the dask path)
+
+def noisy(detector, level=0.0, delay=0.0):
+    import numpy as np
+    shape = (detector.geometry.row, detector.geometry.col)
+    time.sleep(delay * (5 - level) / 1000.0)        # later parameters finish first
+    first = np.random.random_sample(shape)
+    time.sleep(delay / 1000.0)
+    detector.photon.array = level + first
+
+
+def noisy2(detector, delay=0.0):
+    import numpy as np
+    shape = (detector.geometry.row, detector.geometry.col)
+    time.sleep(delay / 1000.0)
+    detector.signal.array = np.random.normal(size=shape)
+
+
+def seeded_job(job: dict) -> dict:
+    """Observation over `levels` with pipeline_seed; returns, per level, whether the noise of the run is
+    exactly the first draws of the seed's own stream (reference generator), and the generator digests."""
+    import dask
+    import numpy as np
+    import pyxel
+    from harness import seed as S
+    from pyxel.exposure import Readout
+    from pyxel.observation import Observation, ParameterValues
+    from pyxel.pipelines import DetectionPipeline, ModelFunction
+    levels = job.get("levels", [1.0, 2.0, 3.0, 4.0])
+    pseed = job.get("pipeline_seed", 5)
+    pipe = DetectionPipeline(
+        photon_collection=[ModelFunction(func="harness.obs.noisy", name="noisy",
+                                         arguments={"level": 0.0, "delay": job.get("delay", 20.0)})],
+        charge_measurement=[ModelFunction(func="harness.obs.noisy2", name="noisy2",
+                                          arguments={"delay": job.get("delay", 20.0)})])
+    det = px.make_detector("ccd", 2, 3)
+    obs = Observation(parameters=[ParameterValues(key="pipeline.photon_collection.noisy.arguments.level", values=levels)],
+                      mode="product", with_dask=bool(job.get("dask", True)), readout=Readout(times=[1.0]),
+                      pipeline_seed=pseed)
+    dkw = {}
+    if job.get("scheduler"):
+        dkw["scheduler"] = job["scheduler"]
+        if job.get("workers"):
+            dkw["num_workers"] = job["workers"]
+    S._ORIG["seed"](777)
+    before = S.state_digest()
+    out = {"job": job, "runs": [], "error": None}
+    try:
+        with dask.config.set(**dkw):
+            dt = pyxel.run_mode(obs, det, pipe, with_inherited_coords=True)
+            if job.get("dask", True):
+                dt = dt.compute()
+    except Exception as exc:  # noqa: BLE001
+        out["error"] = repr(exc)[:300]
+        return out
+    out["restored"] = S.state_digest() == before
+    rs = np.random.RandomState(pseed)
+    ref1 = rs.random_sample((2, 3))
+    ref2 = rs.normal(size=(2, 3))
+    ph = dt["/bucket/photon"]
+    sg = dt["/bucket/signal"]
+    dim = [d for d in ph.dims if d not in ("y", "x", "time")][0]
+    for k, lv in enumerate(levels):
+        a = np.asarray(ph.isel({dim: k, "time": 0})) - float(ph[dim][k])
+        b = np.asarray(sg.isel({dim: k, "time": 0}))
+        out["runs"].append({"level": float(ph[dim][k]), "own_stream_photon": bool(np.allclose(a, ref1, rtol=0, atol=1e-12)),
+                            "own_stream_signal": bool(np.array_equal(b, ref2))})
+    return out
